@@ -525,7 +525,7 @@ def _replace_nodes(source: str, replacements: Mapping[ast.AST, ast.AST | str]) -
         rewrite = _Rewrite(old, new)
         new_source = _do_rewrite(new_source, rewrite)
 
-    if not core.is_valid_python(new_source):
+    if not core.is_still_valid_python(source, new_source):
         return source
 
     return new_source
@@ -782,13 +782,13 @@ def _apply_rewrites(source: str, rewrites: Sequence[Tuple[Any, Callable]]) -> st
     for transaction, (_, rewrite) in rewrites:
         new_source = _do_rewrite(new_source, rewrite, fix_function_name=transaction.group_name)
 
-    if not core.is_valid_python(new_source):
+    if not core.is_still_valid_python(source, new_source):
         return source
 
     new_source = _substitute_original_strings(original_source, new_source)
     new_source = _substitute_original_fstrings(original_source, new_source)
 
-    if not core.is_valid_python(new_source):
+    if not core.is_still_valid_python(source, new_source):
         return source
 
     return new_source
